@@ -2,6 +2,7 @@ package c08
 
 import (
 	"encoding/json"
+	"fmt"
 	"math/rand"
 	"strings"
 )
@@ -31,10 +32,34 @@ func FromSched(line string) (*Scn, error) {
 
 var pieces = []string{"a", "b", "\x1b[1;5A", "\x1b[A", "\x1bOP", "\x1b]0;t\x07", "\x1bx", "é", "\x1b[38:2::1:2:3m", "\x1bP1$r2 q\x1b\\", "\r", "世"}
 
+var serial int
+
+// chunkOf concatenates a few pieces; string sequences get payloads that are
+// all different, so that a delivered sequence overwritten by a later one shows.
 func chunkOf(rng *rand.Rand) string {
 	s := ""
 	for n := 1 + rng.Intn(3); n > 0; n-- {
-		s += pieces[rng.Intn(len(pieces))]
+		serial++
+		switch rng.Intn(6) {
+		case 0:
+			s += fmt.Sprintf("\x1b]0;title-%d\x07", serial)
+		case 1:
+			s += fmt.Sprintf("\x1bP1$r%d q\x1b\\", serial)
+		case 2:
+			s += fmt.Sprintf("\x1b[%d;%dH", serial, serial+1)
+		default:
+			s += pieces[rng.Intn(len(pieces))]
+		}
+	}
+	return s
+}
+
+// manySeqs: six rounds of CSI / ESC / OSC / DCS / APC whose parameters and payloads all differ.
+func manySeqs() string {
+	s := ""
+	for k := 1; k <= 6; k++ {
+		s += fmt.Sprintf("\x1b[%d;%d;%dm\x1b(%c\x1b]8;;http://u/%d-%s\x1b\\\x1bP%d$r%d q\x1b\\\x1b_G%d\x1b\\", k, k+10, k+20, 'A'+k, k,
+			strings.Repeat("x", k), k, k, k)
 	}
 	return s
 }
@@ -87,7 +112,7 @@ func Fixed() []*Scn {
 				mk("prompt-esc-seq", cons, retain, false, h("\x1b", false), h("[1;5A", false)),
 				mk("prompt-alt-key", cons, retain, false, h("ab\x1b", false), h("x", false)),
 				mk("esc-esc", cons, retain, true, h("\x1b", false), h("\x1b", true), h("[A", false)),
-				mk("many-seqs-retained", cons, retain, false, h(strings.Repeat("\x1b[1;2;3m\x1b(B\x1b]8;;u\x1b\\\x1bP1$r0 q\x1b\\", 6), false)),
+				mk("many-seqs-retained", cons, retain, false, h(manySeqs(), false)),
 			)
 		}
 	}
